@@ -221,7 +221,9 @@ SK_COMPUTE = {
         "$Arr[..$a * $p].copy_from_slice(&%s[..$b * $q])" % GR:
             "assert!($a * $p <= arr_len); assert!($b * $q <= len_r); assert!($a * $p == $b * $q); trace.push(11); trace.push($b * $q);",
         "for $i in 0..$new - $old": "trace.push(12); trace.push($old); trace.push($new - $old);",
-        "*%s = $Arr" % GW: "trace.push(13); trace.push(arr_len);"}}
+        "*%s = $Arr" % GW: "trace.push(13); trace.push(arr_len);"},
+    # a variant without the re-check does not read the length under the write lock: it is TRANSLATED (and breaks the equality theorem)
+    "optional": [GW + ".len()"]}
 
 # `Decryptor::dot_product_ct_sk_array`: the use phase.  `len_u` = `len()` of the snapshot taken under the use phase's read lock.
 CDL = "self.context.get_context_data(encrypted.parms_id()).unwrap()"
@@ -232,7 +234,8 @@ SK_DOT = {
     "handles": [CDL, CDL + ".parms()", CDL + ".parms().coeff_modulus()", CDL + ".small_ntt_tables()", SKA],
     "guards": {GR: RW_GUARDS[GR]},
     "exprs": {CDL + ".parms().coeff_modulus().len()": "k", CDL + ".parms().poly_modulus_degree()": "n", "encrypted.size()": "size",
-              KCD + ".parms().coeff_modulus().len()": "kkey", "encrypted.is_ntt_form()": "ntt"},
+              KCD + ".parms().coeff_modulus().len()": "kkey", "encrypted.is_ntt_form()": "ntt", SKA + ".len()": "len_u"},
+    "optional": [SKA + ".len()"],      # (a variant that derives the stride from the snapshot's length is translated)
     "effects": {
         "self.compute_secret_key_array($e - 1)": "trace.push(14); trace.push($e - 1);",
         "unsafe": "trace.push(16);",
